@@ -112,10 +112,17 @@ func main() {
 	case "facts":
 		cmdFacts(os.Args[2:])
 	default:
+		// sub-commands registered by engine files (e.g. `replchild` of eng_replloop.go: the child process running the real REPL)
+		if f, ok := subcommands[os.Args[1]]; ok {
+			f(os.Args[2:])
+			return
+		}
 		fmt.Fprintln(os.Stderr, "unknown command")
 		os.Exit(2)
 	}
 }
+
+var subcommands = map[string]func(args []string){}
 
 func cmdRun(args []string) {
 	if len(args) < 1 {
